@@ -333,8 +333,9 @@ class SymFS:
             raise BudgetExceeded(f'{len(self.scans)} directory listings')
         out = []
         if slot is None:
-            # an ancestor of the mount point: shows the next component of ROOT only
-            return _Scan([])
+            # the real root directory: shows the mount point only
+            nm = ROOT.strip('/')
+            return _Scan([_Entry(self, nm, os.path.join(shown, nm) if shown is not None else nm, '', DIR, as_bytes)])
         for nm, child in self.t.children.get(slot, []):
             ck = self.kind(child)
             if ck != ABSENT:
